@@ -30,6 +30,10 @@ def pick_pool(seed):
         return (d["ref"]["kind"] in kinds and d["ref"]["f"] == field and (idx is None or d["ref"]["i"] == idx)
                 and d["skel"] == 1 and d["op"] == "==" and d["c"] == 1 and d["cons"] == "assert" and d["guard"] == "none"
                 and d["second"] == 0 and d["side"] == "L" and d["app"] == app)
+    def clean16(d, kinds, field, idx=None):
+        return (d["ref"]["kind"] in kinds and d["ref"]["f"] == field and (idx is None or d["ref"]["i"] == idx)
+                and d["skel"] == 16 and d["op"] == "==" and d["c"] == 1 and d["cons"] == "assert" and d["guard"] == "none"
+                and d["second"] == 0 and d["side"] == "L" and not d["app"])
     want = [("f1", lambda d: straight(d, "RekeyTo", app=False)),
             ("f1", lambda d: straight(d, "Fee", "<=", app=False) or (d["ref"]["f"] == "Fee" and d["skel"] == 1 and not d["app"])),
             ("f1", lambda d: straight(d, "GroupIndex", app=False)),
@@ -41,7 +45,10 @@ def pick_pool(seed):
             ("f3", lambda d: clean3(d, ("relp", "relps"), "RekeyTo")),
             ("f3", lambda d: clean3(d, ("relm", "relms"), "RekeyTo") or clean3(d, ("relm", "relms"), "Fee")),
             ("f3", lambda d: clean3(d, ("gtxn", "gtxns"), "Fee")),
-            ("f3", lambda d: d["ref"]["kind"] in ("gtxn", "gtxns") and d["ref"]["f"] == "OnCompletion" and d["app"])]
+            ("f3", lambda d: d["ref"]["kind"] in ("gtxn", "gtxns") and d["ref"]["f"] == "OnCompletion" and d["app"]),
+            # checkers with an accepting exit inside a subroutine that has NOT seen the check (skeleton 16)
+            ("f3", lambda d: clean16(d, ("gtxn",), "RekeyTo", 1)),
+            ("f3", lambda d: clean16(d, ("relp",), "RekeyTo"))]
     out = []
     for fam, pred in want:
         pool = f1 if fam == "f1" else f3
@@ -199,7 +206,7 @@ def collect(prop, tier, seed):
            "targets_declared_by_two_members": tot["targets_with_two_declarers"],
            "not_reported_pairs_searched_for_an_approved_concrete_group": tot["sound_searched"],
            "reported_pairs_with_an_approved_concrete_group_sampled": tot["reported_with_concrete_group"],
-           "rule": "GroupCheck.tla: configurations of GroupGen.tla (1-3 transactions over a pool of 12 contracts that check "
+           "rule": "GroupCheck.tla: configurations of GroupGen.tla (1-3 transactions over a pool of 14 contracts that check "
                    "own fields, absolute indices 0/1, offsets +1/-1, or nothing; types txn/pay/axfer/appl; absolute indices; "
                    "relative offsets) x 8 detectors; GroupSem.tla: for every eligible transaction the tool did not report, every concrete "
                    "group consistent with the configuration (sizes up to 5, all placements, the fields some member reads) is run on "
